@@ -3026,12 +3026,17 @@ typedef struct ccase {
 static ccase *CC;
 static int    NCC;
 
-static const char *CRESP[2] = {
+static const char *CRESP[4] = {
 	"HTTP/1.1 200 OK\r\nContent-Type: text/plain\r\nContent-Length: 5\r\n\r\nhello",
 	"HTTP/1.1 200 OK\r\nTransfer-Encoding: chunked\r\n\r\n5\r\nhello\r\n"
 	"3;x=y\r\nabc\r\n1A\r\n0\r\n\r\nABCDEFGHIJKLMNOPQRSTU\r\n0\r\nX-T: v\r\n\r\n",
+	// responses without a body: the transaction ends with the head
+	"HTTP/1.1 204 No Content\r\nX-A: b\r\n\r\n",
+	"HTTP/1.1 200 OK\r\nContent-Length: 0\r\nX-A: b\r\n\r\n",
 };
-static const char  *CBODY[2] = { "hello", "helloabc0\r\n\r\nABCDEFGHIJKLMNOPQRSTU" };
+static const char  *CBODY[4] = { "hello", "helloabc0\r\n\r\nABCDEFGHIJKLMNOPQRSTU", "", "" };
+static const int    CSTAT[4] = { 200, 200, 204, 200 };
+static const char  *CRN[4]   = { "plain", "chunked", "204-no-content", "empty-body" };
 
 static int
 raw_listen(int *port)
@@ -3139,7 +3144,7 @@ c_case(nng_http_client *cli, nng_aio *aio, int lfd, int port, int cs,
 			                    : "C16:http:valid-response",
 			    "%s response cut at %d,%d: the transaction did not "
 			    "complete until the server closed (result %d)",
-			    cc->resp ? "chunked" : "plain", cc->cut1, cc->cut2,
+			    CRN[cc->resp], cc->cut1, cc->cut2,
 			    (int) nng_aio_result(aio));
 	}
 	int res = (int) nng_aio_result(aio);
@@ -3163,20 +3168,20 @@ c_case(nng_http_client *cli, nng_aio *aio, int lfd, int port, int cs,
 	                                : "C16:http:valid-response";
 	if (res != 0)
 		CFAIL(sgn, "%s response cut at %d,%d: transaction fails with %s",
-		    cc->resp ? "chunked" : "plain", cc->cut1, cc->cut2,
+		    CRN[cc->resp], cc->cut1, cc->cut2,
 		    nng_strerror((nng_err) res));
 	void  *b = NULL;
 	size_t l = 0;
 	nng_http_get_body(conn, &b, &l);
 	size_t el = strlen(CBODY[cc->resp]);
-	if (nng_http_get_status(conn) != 200 || l != el ||
-	    memcmp(b, CBODY[cc->resp], el) != 0)
+	if ((int) nng_http_get_status(conn) != CSTAT[cc->resp] || l != el ||
+	    (el && memcmp(b, CBODY[cc->resp], el) != 0))
 		CFAIL(sgn,
 		    "%s response cut at %d,%d: status %d, body %zu bytes \"%s\" "
-		    "instead of 200 and the %zu-byte body",
-		    cc->resp ? "chunked" : "plain", cc->cut1, cc->cut2,
+		    "instead of %d and the %zu-byte body",
+		    CRN[cc->resp], cc->cut1, cc->cut2,
 		    (int) nng_http_get_status(conn), l,
-		    showb(b, l < 40 ? l : 40), el);
+		    showb(b, l < 40 ? l : 40), CSTAT[cc->resp], el);
 	{
 		size_t sl = (size_t) (strstr(resp, "\r\n") - resp);
 		size_t he = (size_t) (strstr(resp, "\r\n\r\n") - resp) + 4;
@@ -3237,12 +3242,12 @@ static void
 build_httpc_cases(int T)
 {
 	CC = calloc(6000, sizeof(ccase));
-	for (int r = 0; r < 2; r++) {
+	for (int r = 0; r < 4; r++) {
 		int n = (int) strlen(CRESP[r]);
-		CC[NCC++] = (ccase){ r, -1, -1, NULL, r ? "chunked" : "plain", "" };
+		CC[NCC++] = (ccase){ r, -1, -1, NULL, CRN[r], "" };
 		for (int c = 1; c < n; c++)
-			CC[NCC++] = (ccase){ r, c, -1, NULL, r ? "chunked" : "plain", "" };
-		if (T)
+			CC[NCC++] = (ccase){ r, c, -1, NULL, CRN[r], "" };
+		if (T && r < 2)
 			for (int c = 1; c < n; c += 2)
 				for (int e = c + 1; e < n; e += 5)
 					if (NCC < 5900)
